@@ -71,9 +71,14 @@ pub enum PoAct {
     Transparent(u32),
     Poll,
     Tick,
-    /// a long pause (2^20 ms): reached in one step, so the representative of the saturated-age
-    /// states is a really old one (thresholds far beyond CAP are exercised)
-    BigTick,
+    /// a long pause (index into `pauses`: 2^16-2, 2^16, 2^20, 2^32-2, 2^32 ms) in one step: the
+    /// representative of the saturated-age states becomes a really old one (thresholds far beyond
+    /// CAP are exercised), and elapsed-time arithmetic that truncates to 16 or 32 bits wraps
+    Pause(u8),
+    /// many resets in one step (index into `storms`): counters used to implement a lazy reset wrap
+    ResetStorm(u8),
+    /// a non-contributing message on every one of the 16 channels
+    TouchAll,
     Reset,
     ResetProbe,
 }
@@ -88,8 +93,15 @@ pub struct PoState {
 pub struct PollSys {
     pub pid: &'static str,
     pub ch: u8,
+    /// timeout in whole milliseconds, rounded up (used for CAP and for choosing probe instants)
     pub timeout: u64,
+    /// the exact timeout in microseconds (a timeout need not be a whole number of milliseconds)
+    pub timeout_us: u64,
     pub cap: u64,
+    /// long pauses offered as single actions (ms)
+    pub pauses: Vec<u64>,
+    /// reset storms offered as single actions: (number of resets, with traffic on another channel in between)
+    pub storms: Vec<(u32, bool)>,
     pub alphabet: Vec<(u8, u8)>,
     pub probes: Vec<(u8, u8)>,
     pub others: Vec<(u8, u8, u8)>,
@@ -144,7 +156,10 @@ impl PollSys {
             pid,
             ch,
             timeout,
+            timeout_us: timeout.saturating_mul(1000),
             cap: cap_for(timeout, cap_mult),
+            pauses: vec![(1 << 16) - 2, 1 << 16, 1 << 20, (1 << 32) - 2, 1 << 32],
+            storms: Vec::new(),
             alphabet,
             probes,
             others: noncontrib_small::<PollingParameterNumberMessageScanner>(ch),
@@ -158,7 +173,20 @@ impl PollSys {
     }
 
     pub fn new_scanner(&self) -> PollingParameterNumberMessageScanner {
-        PollingParameterNumberMessageScanner::new(Duration::from_millis(self.timeout))
+        PollingParameterNumberMessageScanner::new(Duration::from_micros(self.timeout_us))
+    }
+
+    /// A timeout that is not a whole number of milliseconds.
+    pub fn with_timeout_us(mut self, us: u64) -> Self {
+        self.timeout_us = us;
+        self.timeout = (us + 999) / 1000;
+        self.cap = cap_for(self.timeout, 1);
+        self
+    }
+
+    /// has the timeout passed after `age` milliseconds?
+    fn expired(&self, age_ms: u64) -> bool {
+        age_ms.saturating_mul(1000) >= self.timeout_us
     }
 
     fn v13(&self, rule: &str, cls: &str, detail: impl FnOnce() -> String) -> Violation {
@@ -173,6 +201,8 @@ impl PollSys {
     pub fn tname(&self) -> String {
         if self.timeout >= T_INF {
             "inf".to_string()
+        } else if self.timeout_us % 1000 != 0 {
+            format!("{}us", self.timeout_us)
         } else {
             format!("{}ms", self.timeout)
         }
@@ -407,7 +437,7 @@ impl PollSys {
             // P6, poll clause: the first poll after the timeout reports a pending controller-6 byte
             if let (Some((b, _)), Some(age)) = (ob.owed, age_owed) {
                 let reported = out.map_or(false, |t| is_7bit_entry(&t) && t[2] == b as u32);
-                if age >= self.timeout && !reported {
+                if self.expired(age) && !reported {
                     v.push(self.v14("P6-pending-msb-lost", "poll", || format!("controller-6 byte {} was pending for {} ms (timeout {}); the first poll after the timeout returned {:?} without reporting it", b, age, self.tname(), out.map(|t| pnm_str(&t)))));
                 }
             }
@@ -415,7 +445,7 @@ impl PollSys {
         if self.report.c13 {
             match (&out, ob.owed, age_owed) {
                 (Some(t), Some((b, _)), Some(age)) => {
-                    if age < self.timeout {
+                    if !self.expired(age) {
                         v.push(self.v13("R1-poll-returns-only-after-timeout", "early", || format!("poll returned {} only {} ms after the data entry MSB was fed (timeout {})", pnm_str(t), age, self.tname())));
                     }
                     let want = [self.ch as u32, ob.number().unwrap_or(u32::MAX), b as u32, ob.reg as u32, 0, 0];
@@ -427,14 +457,14 @@ impl PollSys {
                     v.push(self.v13("R1-poll-returns-only-a-pending-msb", "nothing-pending", || format!("poll returned {} although no data entry MSB is pending (history record {:?})", pnm_str(t), ob)));
                 }
                 (None, Some((b, _)), Some(age)) => {
-                    if age >= self.timeout {
+                    if self.expired(age) {
                         v.push(self.v13("R2-poll-returns-expired-pending-msb", "missing", || format!("data entry MSB {} has been pending for {} ms (timeout {}) but poll returned nothing", b, age, self.tname())));
                     }
                 }
                 _ => {}
             }
             // R3: a poll before the timeout has no effect
-            let early = age_owed.map_or(false, |a| a < self.timeout) || age_lsb.map_or(false, |a| a < self.timeout);
+            let early = age_owed.map_or(false, |a| !self.expired(a)) || age_lsb.map_or(false, |a| !self.expired(a));
             if early && out.is_none() && sc != s.sc {
                 v.push(self.v13("R3-early-poll-has-no-effect", "state", || format!("a poll before the timeout changed the scanner: {:?} -> {:?}", s.sc, sc)));
             }
@@ -453,10 +483,10 @@ impl PollSys {
                 nob.last6 = Some((b, false));
             }
         }
-        if age_owed.map_or(false, |a| a >= self.timeout) {
+        if age_owed.map_or(false, |a| self.expired(a)) {
             nob.owed = None;
         }
-        if age_lsb.map_or(false, |a| a >= self.timeout) {
+        if age_lsb.map_or(false, |a| self.expired(a)) {
             nob.lsbp = None;
             nob.lsb_dropped = true;
         }
@@ -496,7 +526,13 @@ impl System for PollSys {
         }
         out.push(PoAct::Poll);
         out.push(PoAct::Tick);
-        out.push(PoAct::BigTick);
+        for i in 0..self.pauses.len() {
+            out.push(PoAct::Pause(i as u8));
+        }
+        for i in 0..self.storms.len() {
+            out.push(PoAct::ResetStorm(i as u8));
+        }
+        out.push(PoAct::TouchAll);
         out.push(PoAct::Reset);
         out.push(PoAct::ResetProbe);
         for &(c, v) in &self.probes {
@@ -519,10 +555,10 @@ impl System for PollSys {
         self.key_inner(s)
     }
     fn n_classes(&self) -> usize {
-        9
+        11
     }
     fn class_name(&self, i: usize) -> String {
-        ["feed-contributing-cc", "feed-cc-probe(concretisation)", "feed-other(expanded)", "feed-must-be-transparent", "poll", "tick-1ms", "reset", "reset-probe", "long-pause-2^20ms"][i].to_string()
+        ["feed-contributing-cc", "feed-cc-probe(concretisation)", "feed-other(expanded)", "feed-must-be-transparent", "poll", "tick-1ms", "reset", "reset-probe", "long-pause", "reset-storm", "touch-all-16-channels"][i].to_string()
     }
     fn class_of(&self, a: &PoAct) -> usize {
         match a {
@@ -534,7 +570,9 @@ impl System for PollSys {
             PoAct::Tick => 5,
             PoAct::Reset => 6,
             PoAct::ResetProbe => 7,
-            PoAct::BigTick => 8,
+            PoAct::Pause(_) => 8,
+            PoAct::ResetStorm(_) => 9,
+            PoAct::TouchAll => 10,
         }
     }
     fn render(&self, a: &PoAct) -> String {
@@ -551,13 +589,15 @@ impl System for PollSys {
             }
             PoAct::Poll => format!("poll:{}", self.ch),
             PoAct::Tick => "tick".to_string(),
-            PoAct::BigTick => "bigtick".to_string(),
+            PoAct::Pause(i) => format!("pause:{}", self.pauses[*i as usize]),
+            PoAct::ResetStorm(i) => format!("resetstorm:{}:{}", self.storms[*i as usize].0, self.storms[*i as usize].1),
+            PoAct::TouchAll => "touchall".to_string(),
             PoAct::Reset => "reset".to_string(),
             PoAct::ResetProbe => "resetprobe".to_string(),
         }
     }
     fn rust_preamble(&self) -> String {
-        format!("// build with RUSTFLAGS=\"--cfg helgoboss_midi_verif\" for the mock clock\n    let mut scanner = helgoboss_midi::PollingParameterNumberMessageScanner::new(std::time::Duration::from_millis({}));\n    let mut clock = 0u64;", self.timeout)
+        format!("// build with RUSTFLAGS=\"--cfg helgoboss_midi_verif\" for the mock clock\n    let mut scanner = helgoboss_midi::PollingParameterNumberMessageScanner::new(std::time::Duration::from_micros({}));\n    let mut clock = 0u64;", self.timeout_us)
     }
     fn rust_line(&self, a: &PoAct) -> String {
         match a {
@@ -565,7 +605,16 @@ impl System for PollSys {
             PoAct::Other(_) | PoAct::Transparent(_) => format!("// feed {}", self.render(a)),
             PoAct::Poll => format!("println!(\"{{:?}}\", scanner.poll(helgoboss_midi::test_util::channel({})));", self.ch),
             PoAct::Tick => "clock += 1; helgoboss_midi::verif_hooks::set_now_millis(clock); // (std::thread::sleep(1ms) with the real clock)".to_string(),
-            PoAct::BigTick => "clock += 1 << 20; helgoboss_midi::verif_hooks::set_now_millis(clock);".to_string(),
+            PoAct::Pause(i) => format!("clock += {}; helgoboss_midi::verif_hooks::set_now_millis(clock);", self.pauses[*i as usize]),
+            PoAct::ResetStorm(i) => {
+                let (n, traffic) = self.storms[*i as usize];
+                if traffic {
+                    format!("for _ in 0..{} {{ scanner.feed(&helgoboss_midi::test_util::note_on({}, 1, 1)); scanner.reset(); }}", n, (self.ch + 1) % 16)
+                } else {
+                    format!("for _ in 0..{} {{ scanner.reset(); }}", n)
+                }
+            }
+            PoAct::TouchAll => "for c in 0..16 { scanner.feed(&helgoboss_midi::test_util::note_on(c, 1, 1)); scanner.feed(&helgoboss_midi::test_util::control_change(c, 7, 1)); }".to_string(),
             PoAct::Reset | PoAct::ResetProbe => "scanner.reset();".to_string(),
         }
     }
@@ -611,11 +660,43 @@ impl PollSys {
                 obs: 0,
                 violations: Vec::new(),
             },
-            PoAct::BigTick => Step {
-                next: Some(PoState { sc: s.sc, now: s.now + (1 << 20), ob: s.ob }),
+            PoAct::Pause(i) => Step {
+                next: Some(PoState { sc: s.sc, now: s.now + self.pauses[*i as usize], ob: s.ob }),
                 obs: 0,
                 violations: Vec::new(),
             },
+            PoAct::ResetStorm(i) => {
+                set_now_millis(s.now);
+                let (n, traffic) = self.storms[*i as usize];
+                let mut sc = s.sc;
+                let other = raw(0x90 | ((self.ch + 1) % 16), 1, 1);
+                let mut v = Vec::new();
+                for _ in 0..n {
+                    if traffic {
+                        let o = sc.feed_msg(&other);
+                        if (o[0].is_some() || o[1].is_some()) && v.is_empty() {
+                            v.push(self.vx("non-contributing-reports", "reset-storm", || format!("a note-on on another channel reported {:?} during a reset storm", o)));
+                        }
+                    }
+                    sc.reset_all();
+                }
+                let ob = Obs { last6: s.ob.last6, last38: s.ob.last38, ..Obs::default() };
+                Step { next: Some(PoState { sc, now: s.now, ob }), obs: 0, violations: v }
+            }
+            PoAct::TouchAll => {
+                set_now_millis(s.now);
+                let mut sc = s.sc;
+                let mut v = Vec::new();
+                for c in 0..16u8 {
+                    for m in [raw(0x90 | c, 1, 1), raw(0xB0 | c, 7, 1)] {
+                        let o = sc.feed_msg(&m);
+                        if (o[0].is_some() || o[1].is_some()) && v.is_empty() && (self.report.c14 || self.report.transparency) {
+                            v.push(self.vx("non-contributing-reports", "touch-all", || format!("a non-contributing message on channel {} reported {:?}", c, o)));
+                        }
+                    }
+                }
+                Step { next: Some(PoState { sc, now: s.now, ob: s.ob }), obs: 0, violations: v }
+            }
             PoAct::Reset => {
                 set_now_millis(s.now);
                 let mut sc = s.sc;
@@ -673,9 +754,21 @@ fn run_observer(chk: &xs::Check, tier: xs::Tier, pid: &'static str, report: PRep
     let channels: Vec<u8> = if tier.thorough() { (0..16).collect() } else { vec![0, 9, 15] };
     let v3 = [0u8, 1, 127];
     let v8 = [0u8, 1, 2, 63, 64, 85, 126, 127];
-    for &t in &TIMEOUTS {
+    // timeouts as (ms, exact microseconds): 0, 2 ms, 2^40 ms, and - where timing is judged (C13) - a
+    // timeout with a sub-millisecond part (1.5 ms)
+    let mut touts: Vec<(u64, u64)> = TIMEOUTS.iter().map(|t| (*t, t.saturating_mul(1000))).collect();
+    if report.c13 {
+        touts.push((2, 1500));
+    }
+    for &(t, t_us) in &touts {
         for &c in &channels {
-            let mut sys = PollSys::new(pid, c, t, 1, &v3, true, report);
+            if t_us % 1000 != 0 && c != channels[0] {
+                continue;
+            }
+            let mut sys = PollSys::new(pid, c, t, 1, &v3, true, report).with_timeout_us(t_us);
+            if c == channels[0] {
+                sys.storms = vec![(256, false), (65536, false), (65536, true)];
+            }
             // second-step probing: on the first channel in the quick tier (follow-ups over the
             // expansion domain), on every channel in the thorough tier (first channel: follow-ups
             // over all 128 values)
@@ -695,7 +788,8 @@ fn run_observer(chk: &xs::Check, tier: xs::Tier, pid: &'static str, report: PRep
             }
             if tier.thorough() && c == 0 {
                 // doubled age cap: same verdict required
-                let sys2 = PollSys::new(pid, c, t, 2, &v3, false, report);
+                let mut sys2 = PollSys::new(pid, c, t, 2, &v3, false, report).with_timeout_us(t_us);
+                sys2.cap = cap_for(sys2.timeout, 2);
                 let out2 = xs::explore(&sys2, &Limits::default());
                 engine::record(chk, &sys2, &out2, None);
                 let sigs = |o: &xs::Outcome<PollSys>| {
@@ -709,7 +803,7 @@ fn run_observer(chk: &xs::Check, tier: xs::Tier, pid: &'static str, report: PRep
                 }
                 // second engine
                 if out.found.is_empty() {
-                    let r = xs::sr::run(std::sync::Arc::new(PollSys::new(pid, c, t, 1, &v3, false, report)), xs::n_threads());
+                    let r = xs::sr::run(std::sync::Arc::new(PollSys::new(pid, c, t, 1, &v3, false, report).with_timeout_us(t_us)), xs::n_threads());
                     chk.push("stateright_cross_check", json!({"timeout": sys.tname(), "xs_states": out.nodes.len(), "stateright_unique_states": r.unique_states, "stateright_violation": r.violation}));
                     if r.unique_states != out.nodes.len() || r.violation {
                         chk.machinery_error(format!("stateright disagrees with xs for timeout {}: {} vs {} states, violation={}", sys.tname(), r.unique_states, out.nodes.len(), r.violation));
@@ -718,7 +812,7 @@ fn run_observer(chk: &xs::Check, tier: xs::Tier, pid: &'static str, report: PRep
             }
         }
         if tier.thorough() {
-            let sys = PollSys::new(pid, 3, t, 1, &v8, true, report);
+            let sys = PollSys::new(pid, 3, t, 1, &v8, true, report).with_timeout_us(t_us);
             let out = xs::explore(&sys, &Limits { max_states: 8_000_000, ..Default::default() });
             engine::record(chk, &sys, &out, None);
         }
